@@ -1259,6 +1259,13 @@ func (s *Scanner) switchToComment() {
 	if s.annotation != annotationNone && s.annotation != annotationInline {
 		panic(s.newJSchemaErrorAtCharacter("inside user inline comment"))
 	}
+	if s.annotation == annotationInline && s.stack.Len() != 0 {
+		if t := s.stack.Peek().Type(); t != lexeme.InlineAnnotationBegin && t != lexeme.InlineAnnotationTextBegin {
+			// The rules of an inline annotation must be complete before a comment
+			// ends the line: the annotation cannot continue on the next one.
+			panic(s.newJSchemaErrorAtCharacter("inside the rules of an inline annotation"))
+		}
+	}
 	s.returnToStep.Push(s.step)
 	s.step = stateAnyCommentStart
 	s.inComment = true
